@@ -245,8 +245,14 @@ pub struct HistCfg {
 pub fn advance_monitored(w: &MinerWorld, mon: &mut Monitors, to: ChainEpoch, dense: bool, o: &mut Outcome, stop: &mut bool) {
     while w.v.epoch() < to && !*stop {
         // one deadline (or less) at a time so that whale maintenance can be interleaved
-        let chunk_to = std::cmp::min(to, w.v.epoch() + 60);
-        whale_maintenance(w, o);
+        let chunk_to = std::cmp::min(to, w.v.epoch() + 29);
+        {
+            let mut accepted: Vec<(MinerSnap, u64, Vec<(u64, Vec<u64>)>)> = vec![];
+            maintenance(w, o, &mut |pre, d, parts| accepted.push((pre.clone(), d, parts.to_vec())));
+            for (pre, d, parts) in accepted {
+                mon.on_post_accepted(&pre, d, &parts);
+            }
+        }
         let mut pending: Vec<(ChainEpoch, Inv, bool, Vec<MinerSnap>, Claims, Claims, Vec<MinerSnap>)> = vec![];
         let mut pre = snaps(w);
         let mut claims_pre = power_claims(&w.v).0;
@@ -364,6 +370,13 @@ pub fn history(index: u64, mut rng: Rng, cfg: &HistCfg, focus: &str) -> Outcome 
     if cfg.fault_prob > 0 {
         w.v.random_faults.replace(Some((index * 7919 + 13, cfg.fault_prob)));
     }
+    // half of the histories have a competent operator: the harness keeps the miners' sectors proven and
+    // recovers faults, on top of the explicit (hostile) ops
+    if rng.chance(1, 2) {
+        for m in w.miners.iter_mut().filter(|m| !m.whale) {
+            m.auto_post = true;
+        }
+    }
     let mut mon = Monitors::new(&w);
     mon.fault_budget = if cfg.enumerate_faults { 12 } else { 0 };
     let policy = w.v.policy.clone();
@@ -394,11 +407,12 @@ pub fn history(index: u64, mut rng: Rng, cfg: &HistCfg, focus: &str) -> Outcome 
         let live: Vec<u64> = pre.deadlines.iter().flat_map(|d| d.partitions.iter().flat_map(|p| p.live())).collect();
         let faulty: Vec<u64> = pre.deadlines.iter().flat_map(|d| d.partitions.iter().flat_map(|p| p.faults.iter().cloned())).collect();
         let precommitted: Vec<u64> = pre.precommits.keys().cloned().collect();
+        let active: Vec<u64> = pre.deadlines.iter().flat_map(|d| d.partitions.iter().flat_map(|p| p.active())).collect();
         let ready: Vec<u64> = precommitted.iter().filter(|n| pre.precommits[n].pre_commit_epoch + policy.pre_commit_challenge_delay < epoch).cloned().collect();
-        let w_pre = if live.len() + precommitted.len() < 6 { 22 } else { 6 };
+        let w_pre = if live.len() + precommitted.len() < 10 { 22 } else { 6 };
         let w_prove = if !ready.is_empty() { 30 } else if !precommitted.is_empty() { 12 } else { 0 };
         let w_post = if live.is_empty() { 0 } else { 30 };
-        let kind = rng.weighted(&[w_pre, w_prove, w_post, 7, 8, 4, 5, 3, 2, 5, 4, 18, 3, 2, 3]);
+        let kind = rng.weighted(&[w_pre, w_prove, w_post, 7, 8, 4, 7, 3, 2, 5, 4, 18, 6, 2, 3]);
         let (name, r, inv): (&'static str, vm_api::MessageResult, Option<Inv>) = match kind {
             0 => {
                 let n = 1 + rng.below(4);
@@ -532,9 +546,13 @@ pub fn history(index: u64, mut rng: Rng, cfg: &HistCfg, focus: &str) -> Outcome 
                 if ss.is_empty() {
                     continue;
                 }
+                let common: Option<ChainEpoch> = if rng.chance(1, 2) { Some(epoch + rng.range(200, 500) * DAY) } else { None };
                 let decls: Vec<(u64, u64, Vec<u64>, ChainEpoch)> = group(&pre, &ss, &mut rng, true)
                     .into_iter()
                     .map(|(d, p, v)| {
+                        if let Some(c) = common {
+                            return (d, p, v, c);
+                        }
                         let cur = v.iter().filter_map(|s| pre.sectors.get(s)).map(|s| s.expiration).max().unwrap_or(epoch);
                         let ne = match rng.weighted(&[70, 15, 15]) {
                             0 => cur + rng.range(1, 200) * DAY,
@@ -603,7 +621,8 @@ pub fn history(index: u64, mut rng: Rng, cfg: &HistCfg, focus: &str) -> Outcome 
                 w.miners[mi].next_sector += 4;
                 let n = 1 + rng.below(3) as usize;
                 let exp = epoch + 181 * DAY + rng.range(0, 100 * DAY);
-                let (r, i) = prove_commit_ni(&w.v, &m, &caller, &cand[..n], exp, rng.below(48));
+                let fav = (m.addr.id().unwrap() * 7 + 5) % 48;
+                let (r, i) = prove_commit_ni(&w.v, &m, &caller, &cand[..n], exp, if rng.chance(2, 3) { fav } else { rng.below(48) });
                 ("prove_commit_ni", r, i)
             }
             14 => {
@@ -659,7 +678,7 @@ pub fn history(index: u64, mut rng: Rng, cfg: &HistCfg, focus: &str) -> Outcome 
                 ("fund", r, i)
             }
         };
-        o.op(format!("{step}: e{epoch} miner {} {name} by {caller} -> {} {}", m.addr, r.code, if r.code.is_success() { "" } else { &r.message[..r.message.len().min(90)] }));
+        o.op(format!("{step}: e{epoch} miner {} {name} by {caller} -> {} {}", m.addr, r.code, if r.code.is_success() { "" } else { &r.message[..r.message.len().min(220)] }));
         o.count(&format!("op_{name}_{}", if r.code.is_success() { "ok" } else { "rejected" }));
         o.hash_mix(((kind as u64) << 1) | r.code.is_success() as u64);
         if r.code.is_success() {
